@@ -867,6 +867,7 @@ def eval_cell(cell, sysobj, seed, res=None, tmp_root=None):
             tkey = "cc" if tr in ("cisd", "ucisd") else "scf"
             tol = bnd[tkey] + SLACK * max(1.0, abs(target))
             stage = "_prep_afqmc"
+            representable = (wt == "uhf") or restricted_ok
             try:
                 with quiet():
                     if io_ == 0:  # once per cell through options.bin
@@ -905,7 +906,6 @@ def eval_cell(cell, sysobj, seed, res=None, tmp_root=None):
                         nterm = np.asarray(wave_data["ci2AB"]).size
                     f32 = (4 + np.log2(max(2, nterm))) * U32 * s32
                     tol = tol + float(f32)
-                representable = (wt == "uhf") or restricted_ok
                 stage = "init_prop_data"
                 pd = prop.init_prop_data(trial, wave_data, ham_data)
                 e_est = float(pd["e_estimate"])
@@ -929,6 +929,10 @@ def eval_cell(cell, sysobj, seed, res=None, tmp_root=None):
                     # refusal of this option pair, outside what the property speaks about -- counted, not judged
                     res.guard("option_refused_NotImplementedError[cisd/uhf]")
                     outcomes[(tr, wt)] = ("refused", str(e)[:80])
+                elif not representable and stage == "init_prop_data" and isinstance(e, ValueError):
+                    # restricted walkers cannot carry this spin-polarised trial; get_init_walkers may say so explicitly
+                    res.guard("restricted_walkers_cannot_represent_spin_polarised_trial")
+                    outcomes[(tr, wt)] = ("not-representable",)
                 else:  # an energy that cannot be computed is not equal to anything
                     outcomes[(tr, wt)] = ("raised", stage, "%s: %s" % (type(e).__name__, str(e)[:200]))
                 continue
